@@ -287,7 +287,14 @@ pub fn walk(sc: &WalkScenario) -> WalkOutcome {
                 v.push(Violation::new("C06", "step-set", format!("the reference semantics admits step {:?} which the model does not take (offered: {})", k, real_offered.contains(k))));
             }
         }
-        if !v.is_empty() || real_steps.is_empty() {
+        if !v.is_empty() {
+            // the states the model would move to are still worth an identity check
+            for (nx, _) in real_steps.values() {
+                states.push(nx.clone());
+            }
+            break;
+        }
+        if real_steps.is_empty() {
             break;
         }
         // choose
